@@ -256,6 +256,25 @@ func ruleOverwriteProvenance(rule string) func(*Ctx) {
 				}
 				src := objOfIdent(info, cs.Call.Args[3])
 				good := false
+				// the configured flag, possibly narrowed: `m.overwrite`, `m.overwrite && <anything>` (a conjunction can only
+				// turn overwriting off), or the constant false
+				var fromField func(e ast.Expr) bool
+				fromField = func(e ast.Expr) bool {
+					e = ast.Unparen(e)
+					if selField(info, e) == owField {
+						return true
+					}
+					if tv := info.Types[e]; tv.Value != nil && tv.Value.String() == "false" {
+						return true
+					}
+					if be, ok := e.(*ast.BinaryExpr); ok && be.Op == token.LAND {
+						return fromField(be.X) || fromField(be.Y)
+					}
+					return false
+				}
+				if src == nil && fromField(cs.Call.Args[3]) {
+					good = true
+				}
 				if src != nil {
 					if st, _, _ := defOf(gw, src); st == nil {
 						// assigned more than once: initial value from the field, later only the constant false
@@ -269,15 +288,13 @@ func ruleOverwriteProvenance(rule string) func(*Ctx) {
 								if objOfIdent(info, l) != src || i >= len(as.Rhs) {
 									continue
 								}
-								r := as.Rhs[i]
-								tv := info.Types[r]
-								if selField(info, r) == owField || (tv.Value != nil && tv.Value.String() == "false") {
+								if fromField(as.Rhs[i]) {
 									continue
 								}
 								good = false
 							}
 						})
-					} else if len(st.Rhs) == 1 && selField(info, st.Rhs[0]) == owField {
+					} else if len(st.Rhs) == 1 && fromField(st.Rhs[0]) {
 						good = true
 					}
 				}
